@@ -110,9 +110,20 @@ def mc_cfg(emit=False, **kw):
     return '\n'.join(out) + '\n'
 
 
-def generate(chk, ids, tag, **consts):
+def parallel(*thunks):
+    """run independent TLC invocations side by side (each gets a share of the workers)"""
+    with ThreadPoolExecutor(max_workers=len(thunks)) as ex:
+        futs = [ex.submit(t) for t in thunks]
+        return [f.result() for f in futs]
+
+
+def share(n):
+    return max(1, nworkers() // n)
+
+
+def generate(chk, ids, tag, workers=None, **consts):
     """run the generation configuration of MC_Routing on the given mesh ids; returns {mesh id: job}"""
-    r = tlc.run('MC_Routing', cfg_text=mc_cfg(emit=True, UseSample=True, **consts),
+    r = tlc.run('MC_Routing', cfg_text=mc_cfg(emit=True, UseSample=True, **consts), workers=workers,
                 extra_modules={'RoutingSample': sample_module(ids)}, timeout=1800, tag=tag)
     if not r.ok:
         raise Machinery(f'generation run {tag} failed: {r.error or r.violated}\n{r.out[-2000:]}')
@@ -137,6 +148,19 @@ def shape(req):
     lab = set(req['strict'])
     return ('+'.join(sorted(kinds)) + f'x{len(req["inc"])}:' +
             ('STRICT' if lab == {1} else 'LOOSE' if lab == {0} else 'MIXED'))
+
+
+def group_shape(b):
+    """class of the include lists of the grouped requests of a batch, taken together"""
+    grouped = sorted({i for g in b['groups'] for i in g})
+    kinds, labs = set(), set()
+    for i in grouped:
+        r = b['reqs'][i - 1]
+        kinds |= {('line' if c > LINE else 'roadm') for c in r['inc']}
+        labs |= set(r['strict'])
+    if not kinds:
+        return '-'
+    return '+'.join(sorted(kinds)) + ':' + ('STRICT' if labs == {1} else 'LOOSE' if labs == {0} else 'MIXED')
 
 
 def kind(b):
@@ -221,10 +245,13 @@ class NetBench:
         if seg is not None and (seg['fib'] or seg['a'] == 0):
             ob['hops'].append(seg)                   # line elements after the last ROADM
         for h in ob['hops']:
-            h['len'] = int(round(h['len'] / self.unit))
+            x = h['len'] / self.unit
+            h['len'] = int(round(x))
+            self.maxdev = max(self.maxdev, abs(x - h['len']))
         return ob
 
     unit = 1000.0        # metres per length unit of the trace (km for the generated meshes)
+    maxdev = 0.0         # largest distance of an observed hop length from a whole length unit
 
     def uid_of(self, code, pick=0):
         if code > LINE:
@@ -336,7 +363,8 @@ def run_mesh_job(job):
             continue
         evs.append(ev)
         meta.append(b)
-    trace = dict(name=f'mesh{job["n"]}:{job["mesh"]}', n=job['n'], links=job['links'], opt=1, tol=0, ev=evs)
+    trace = dict(name=f'mesh{job["n"]}:{job["mesh"]}', n=job['n'], links=job['links'], opt=1, tol=0, ev=evs,
+                 dev=int(round(bench.maxdev * 1e9)))            # in 1e-9 km
     return (trace, meta), excs
 
 
@@ -352,11 +380,14 @@ def replay_jobs(jobs):
 
 
 # ------------------------------------------------------------------------------------------------------ judgement
-def judge(traces, chk, tag, events_per_run=4000):
+def judge(traces, chk, tag, events_per_run=None):
     """second TLC pass: Trace_Routing over the recorded traces -> {trace name: [[event, request, clause], ...]}"""
     for t in traces:
         for e in t['ev']:
             e.pop('notes', None)
+    if events_per_run is None:          # one TLC process per worker, but not below what amortises a JVM start
+        total = sum(len(t['ev']) + 1 for t in traces)
+        events_per_run = max(1500, -(-total // nworkers()))
     chunks, cur, n = [], [], 0
     for t in traces:
         cur.append(t)
@@ -425,9 +456,10 @@ def report(chk, pid, trace, meta, viols, origin):
             clause = min(clauses, key=PRIORITY.index)
             if req_idx:
                 r = b['reqs'][req_idx - 1]
-                sig = f'{origin}|{clause}|{kind(b)}|inc={shape(r)}'
+                where = 'grouped' if any(req_idx in g for g in b['groups']) else 'free'
+                sig = f'{origin}|{clause}|{where}|inc={shape(r)}'
             else:
-                sig = f'{origin}|{clause}|{kind(b)}|inc={"/".join(shape(r) for r in b["reqs"])}'
+                sig = f'{origin}|{clause}|{kind(b).split("+")[0].split("(")[0]}|inc={group_shape(b)}'
             chk.violation(sig, dict(network=trace['name'], links=trace['links'],
                                     batch={k: b[k] for k in ('reqs', 'groups')}, oracle=info, clause=clause,
                                     all_failed_clauses=sorted(clauses), request=req_idx, observed=ev))
@@ -449,7 +481,10 @@ def b2(chk, pid, jobs, origin='B2', keep=lambda b: True):
     """replay the generated jobs into the real code and judge them; returns statistics"""
     jobs = [dict(j, batches=[b for b in j['batches'] if keep(b)]) for j in jobs.values()]
     jobs = [j for j in jobs if j['batches']]
+    import time
+    t0 = time.time()
     out = replay_jobs(jobs)
+    t_replay = time.time() - t0
     traces, metas = [], {}
     nexc = 0
     for res, excs in out:
@@ -459,9 +494,11 @@ def b2(chk, pid, jobs, origin='B2', keep=lambda b: True):
             t, m = res
             traces.append(t)
             metas[t['name']] = m
+    t0 = time.time()
     verdicts = judge(traces, chk, f'{pid.lower()}-trace')
     stats = dict(meshes=len(traces), batches=0, requests=0, conform=0, exceptions=nexc, verdicts={}, kinds={},
-                 errors=0, strong=0)
+                 errors=0, strong=0, noweak=0, replay_s=round(t_replay, 1), judgement_s=round(time.time() - t0, 1))
+    stats['max_hop_length_deviation_1e-9km'] = max([t.get('dev', 0) for t in traces] or [0])
     for t in traces:
         m = metas[t['name']]
         ok = report(chk, pid, t, m, verdicts[t['name']], origin)
@@ -473,11 +510,53 @@ def b2(chk, pid, jobs, origin='B2', keep=lambda b: True):
             stats['kinds'][kind(b)] = stats['kinds'].get(kind(b), 0) + 1
             stats['errors'] += ev['err']
             stats['strong'] += b['info'].get('strong', 0)
-            for v in b['info']['verdict']:
+            stats['noweak'] += int(bool(b['groups']) and not b['info'].get('weak', 0))
+            for v in b['info'].get('verdict', []):
                 stats['verdicts'][v] = stats['verdicts'].get(v, 0) + 1
             chk.case((t['name'], json.dumps([b['reqs'], b['groups']])),
                      nontrivial=bool(b['groups']) or any(r['inc'] for r in b['reqs']))
     return stats, traces, metas
+
+
+def replay(chk, pid):
+    """bin/verif check <ID> --replay FILE: re-run the cases of a replay file (generated meshes) and judge them again"""
+    data = json.loads(open(chk.replay).read())
+    jobs = {}
+    for k, c in enumerate(data.get('cases', [])):
+        name = c.get('network', '')
+        if not name.startswith('mesh') or ':' not in name or not name[4:name.index(':')].isdigit():
+            print(f'replay: case {k} is on a shipped network ({name}); re-run the check to reproduce it')
+            continue
+        n, mesh = int(name[4:name.index(':')]), int(name.split(':')[1])
+        j = jobs.setdefault((n, mesh), dict(mesh=mesh, n=n, links=c['links'], batches=[]))
+        j['batches'].append(dict(c['batch'], info=c.get('oracle') or {'verdict': [None] * len(c['batch']['reqs'])}))
+    if not jobs:
+        raise Machinery(f'nothing to replay in {chk.replay}')
+    stats, traces, _ = b2(chk, pid, jobs, origin='B2', keep=lambda b: True)
+    chk.cov['replayed'] = stats
+    chk.sample(dict(kind='replayed case', network=traces[0]['name'], first_event=traces[0]['ev'][0]))
+    chk.cov['rule'] = 'cases of a replay file re-run through the real pipeline and judged by Trace_Routing'
+
+
+def merge_stats(a, b):
+    """add the counters of two b2() statistics"""
+    if a is None:
+        return b
+    out = dict(a)
+    for k, v in b.items():
+        if isinstance(v, dict):
+            out[k] = dict(a.get(k, {}))
+            for kk, vv in v.items():
+                out[k][kk] = out[k].get(kk, 0) + vv
+        elif k.startswith('max_'):
+            out[k] = max(a.get(k, 0), v)
+        else:
+            out[k] = round(a.get(k, 0) + v, 1)
+    return out
+
+
+def slices(ids, size):
+    return [ids[i:i + size] for i in range(0, len(ids), size)]
 
 
 # ------------------------------------------------------------------------------------------ shipped networks (B3)
